@@ -301,7 +301,13 @@ fn record_case(src: &mut Src, ctx: &mut Ctx) -> Result<(), String> {
     lib.units = GdsUnits(v[0], v[1]);
     let mut s = GdsStruct::new("S");
     // MAG and ANGLE belong to the transform of a structure reference, an array reference or a text
-    let strans = Some(GdsStrans { mag: Some(v[2]), angle: Some(v[3]), ..Default::default() });
+    // (either may be absent: the other must then arrive under its own record type)
+    let (has_mag, has_angle) = match src.below(6) {
+        0 => (true, false),
+        1 => (false, true),
+        _ => (true, true),
+    };
+    let strans = Some(GdsStrans { mag: if has_mag { Some(v[2]) } else { None }, angle: if has_angle { Some(v[3]) } else { None }, ..Default::default() });
     let kind = src.below(3);
     ctx.label(["reals on a structure reference", "reals on an array reference", "reals on a text"][kind as usize]);
     s.elems.push(match kind {
@@ -328,7 +334,10 @@ fn record_case(src: &mut Src, ctx: &mut Ctx) -> Result<(), String> {
         _ => return Err("element kind changed".into()),
     }
     .ok_or("the element's transform (STRANS) is absent after reading")?;
-    let got = [lib2.units.0, lib2.units.1, st.mag.ok_or_else(|| format!("MAG {:e} was written but is absent after reading (ANGLE {:e})", v[2], v[3]))?, st.angle.ok_or_else(|| format!("ANGLE {:e} was written but is absent after reading (MAG {:e})", v[3], v[2]))?];
+    if st.mag.is_some() != has_mag || st.angle.is_some() != has_angle {
+        return Err(format!("transform written with MAG {:?} ANGLE {:?} read back with MAG {:?} ANGLE {:?}", if has_mag { Some(v[2]) } else { None }, if has_angle { Some(v[3]) } else { None }, st.mag, st.angle));
+    }
+    let got = [lib2.units.0, lib2.units.1, st.mag.unwrap_or(v[2]), st.angle.unwrap_or(v[3])];
     for k in 0..4 {
         ctx.nontrivial(v[k].to_bits());
         if got[k].to_bits() != v[k].to_bits() {
@@ -339,6 +348,44 @@ fn record_case(src: &mut Src, ctx: &mut Ctx) -> Result<(), String> {
 }
 
 // ---- sub-check: fixed boundary cases (also the regression inputs of repaired defects) ----------
+/// Many reals in one stream, drawn from a small pool so that values recur after others have been seen:
+/// what a record decodes to may not depend on what was decoded before it.
+fn many_reals_case(src: &mut Src, ctx: &mut Ctx) -> Result<(), String> {
+    use gds21::*;
+    let npool = src.usize_in(2, 14);
+    let pool: Vec<f64> = (0..npool).map(|_| if src.bool() { random_double(src) } else { plausible_field(src) }).collect();
+    let n = src.usize_in(10, 40);
+    let mut lib = GdsLibrary::new("L");
+    lib.units = GdsUnits(pool[src.index(npool)], pool[src.index(npool)]);
+    let mut s = GdsStruct::new("S");
+    let mut want: Vec<(Option<f64>, Option<f64>)> = vec![];
+    for _ in 0..n {
+        let mag = if src.prob(3, 4) { Some(pool[src.index(npool)]) } else { None };
+        let angle = if src.prob(3, 4) { Some(pool[src.index(npool)]) } else { None };
+        want.push((mag, angle));
+        s.elems.push(GdsElement::GdsStructRef(GdsStructRef { name: "T".into(), xy: GdsPoint::new(0, 0), strans: Some(GdsStrans { mag, angle, ..Default::default() }), ..Default::default() }));
+    }
+    lib.structs.push(s);
+    ctx.nontrivial(crate::engine::hash_of(&format!("{:?}", want)));
+    ctx.label("stream of 10-40 transforms with recurring reals");
+    let mut bytes = Vec::new();
+    lib.write(&mut bytes).map_err(|e| format!("write failed: {}", e))?;
+    let lib2 = GdsLibrary::from_bytes(&bytes).map_err(|e| format!("read failed: {}", e))?;
+    if lib2.units.0.to_bits() != lib.units.0.to_bits() || lib2.units.1.to_bits() != lib.units.1.to_bits() {
+        return Err(format!("UNITS {:e} {:e} read back as {:e} {:e}", lib.units.0, lib.units.1, lib2.units.0, lib2.units.1));
+    }
+    for (k, e) in lib2.structs[0].elems.iter().enumerate() {
+        let st = match e {
+            GdsElement::GdsStructRef(r) => r.strans.clone().ok_or("transform absent after reading")?,
+            _ => return Err("element kind changed".into()),
+        };
+        let b = |x: Option<f64>| x.map(|v| v.to_bits());
+        if b(st.mag) != b(want[k].0) || b(st.angle) != b(want[k].1) {
+            return Err(format!("reference #{} of {}: MAG {:?} ANGLE {:?} read back as MAG {:?} ANGLE {:?} (pool of {} values: {:?})", k, n, want[k].0, want[k].1, st.mag, st.angle, npool, pool));
+        }
+    }
+    Ok(())
+}
 fn literal_values() -> Vec<f64> {
     let mut v = vec![0.0, 1.0, -1.0, 1e-3, 1e-9, 1e-6, 0.1, 90.0, 180.0, 270.0, 1.0 / 3.0, 0.25, 16.0, 1.0 / 16.0];
     // predecessors / successors of powers of sixteen
@@ -387,6 +434,7 @@ fn run(run: &mut Run) {
     run.explore("records", run.tier.pick(60_000, 1_000_000), 40, &record_case);
     // the same, each case in a thread of its own (per-thread state of the code starts from scratch)
     run.explore_fresh("records", run.tier.pick(3_000, 40_000), 40, &record_case);
+    run.explore("records-many-reals", run.tier.pick(20_000, 300_000), 200, &many_reals_case);
 }
 
 fn case(sub: &str) -> Option<Box<CaseFn<'static>>> {
@@ -406,6 +454,7 @@ fn case(sub: &str) -> Option<Box<CaseFn<'static>>> {
         "random-doubles" => Some(Box::new(random_case)),
         "random-reals" => Some(Box::new(random_real_case)),
         "records" => Some(Box::new(record_case)),
+        "records-many-reals" => Some(Box::new(many_reals_case)),
         _ => None,
     }
 }
